@@ -138,7 +138,7 @@ def gen_once(rng, two_bands=False, gaps=None, step=None, grid_step=None, n_event
                     zeta[j] is None for j in range(max(0, i - 2), min(n, i + g + 2))):
                 drop |= set(range(i, i + g))
                 break
-    et_mode = et_mode or rng.choice(['const', 'weekly', 'diurnal', 'random'])
+    et_mode = et_mode or rng.choice(['const', 'weekly', 'diurnal', 'random', 'condensation'])
     if et_mode == 'const':
         et = [0.125] * (n + 1)
     elif et_mode == 'weekly':
@@ -146,6 +146,10 @@ def gen_once(rng, two_bands=False, gaps=None, step=None, grid_step=None, n_event
     elif et_mode == 'diurnal':
         per = max(2, int(round(86400 / step)))
         et = [max(0.0, 0.3 * math.sin(2 * math.pi * i / per)) for i in range(n + 1)]
+    elif et_mode == 'condensation':
+        # slightly negative at night (dew, as flux-tower and Penman products report), positive mean
+        per = max(2, int(round(86400 / step)))
+        et = [0.35 * math.sin(2 * math.pi * i / per) if math.sin(2 * math.pi * i / per) > 0 else -0.03 for i in range(n + 1)]
     else:
         et = [round(rng.uniform(0.0, 0.6), 4) for _ in range(n + 1)]
     z = [[i * step, v] for i, v in enumerate(zeta) if i not in drop and v is not None]
